@@ -28,7 +28,7 @@ func (c *Ctx) visitorRule(rule string, fn ruleFn) {
 }
 
 func init() {
-	for _, id := range []string{"C01", "C02", "C03", "C04", "C05", "C06", "C07", "C08", "C09", "C10", "C11", "C13", "C14", "C17"} {
+	for _, id := range []string{"C01", "C02", "C03", "C04", "C05", "C06", "C07", "C08", "C10", "C11", "C13", "C14", "C17"} {
 		notApplicable[id] = "check not built yet at this commit (see DESIGN.md §7 build order); no claim is made"
 	}
 	properties["C12"] = &Property{
@@ -131,6 +131,40 @@ func init() {
 			})
 			if p, _, ok := c.RepoProgram(false); ok {
 				c.Add(small.PoolRule(p, "pkg/token", "pkg/position"))
+			}
+		},
+	}
+
+	properties["C09"] = &Property{
+		Level:     "other",
+		LevelText: "The version API touches (major, minor) only through comparisons, so evaluating Compare/InRange/Less*/Greater*/Validate by abstract interpretation on one representative of every ordering of the operands (relative to each other and to the boundary constants, including huge values) is exhaustive for those functions; Parse's dispatch is decided path by path; all uses of the configured version outside pkg/version are enumerated and each comparison must be constant on the cells {5.0-5.6}, {7.0-7.2}, {7.3, 7.4}. Level 'other' because version.New's string parsing is only checked for provenance (segments, base, bit size), and 'identical trees within a cell' rests on the enumeration of version reads rather than on comparing trees.",
+		LevelNote: "Trusts go/types, the mini interpreter in internal/small/interp.go (fails on anything outside its fragment), strconv/strings semantics. Oracle: PHP versions 5.0-5.6, 7.0-7.4, default 7.4, flexible heredoc from 7.3.",
+		Technique: "static analysis: abstract interpretation over the finite domain of orderings; structured path enumeration of the dispatcher; type-based enumeration of version uses",
+		Engine:    "small",
+		Explanation: "order-domain: Compare = lexicographic numeric order (81+ orderings and boundary values), Less/LessOrEqual/Greater/GreaterOrEqual agree with it, InRange = closed interval (729 orderings), Validate accepts exactly 5.0-5.6 and 7.0-7.4; New splits at '.', base 10, 64 bits, segment 0 -> Major, 1 -> Minor; no run-time writes to range constants. dispatch-shape: every path of parser.Parse — nil version replaced by 7.4 before use, tree returned only inside an InRange-true branch by the parser of the matching family after running it, otherwise (nil, error); ranges are exactly 5.0-5.6 and 7.0-7.4 and equal the validator's. version-flow: outside pkg/version and the dispatcher the version is only copied or compared with version.New(<constant>) and each such test is constant on every cell of the property's partition.",
+		TrustedBase: baseTrusted,
+		Floors: []report.Floor{
+			{Rule: "order-domain", What: "evaluations", Min: 1000},
+			{Rule: "dispatch-shape", What: "paths", Min: 3},
+			{Rule: "version-flow", What: "comparisons", Min: 1},
+			{Rule: "version-flow", What: "uses", Min: 3},
+		},
+		Run: func(c *Ctx) {
+			c.Fixture("mini", "order-domain", false, func(p *load.Program, tb *kinds.Table) *report.RuleResult {
+				r := small.OrderDomainIn(p, "pkg/version")
+				r.Merge(small.OrderDomainIn(p, "pkg/badversion"), "bad:")
+				return r
+			})
+			c.Fixture("mini", "dispatch-shape", false, func(p *load.Program, tb *kinds.Table) *report.RuleResult {
+				r := small.DispatchShapeIn(p, "pkg/parser", "pkg/version")
+				r.Merge(small.DispatchShapeIn(p, "pkg/badparser", "pkg/version"), "bad:")
+				return r
+			})
+			c.Fixture("mini", "version-flow", false, func(p *load.Program, tb *kinds.Table) *report.RuleResult { return small.VersionFlow(p) })
+			if p, _, ok := c.RepoProgram(false); ok {
+				c.Add(small.OrderDomain(p))
+				c.Add(small.DispatchShape(p))
+				c.Add(small.VersionFlow(p))
 			}
 		},
 	}
